@@ -89,9 +89,9 @@ func TestReferenceAnchors(t *testing.T) {
 			t.Fatalf("%s: reference encoder produced\n%q\nwant\n%q", a.name, got, a.wire)
 		}
 		// every sender freedom still reads back to the same fields
-		for kc := 0; kc < 4; kc++ {
+		for kc := 0; kc < 6; kc++ {
 			for sep := 0; sep < 4; sep++ {
-				st := wireStyle{KeyCase: []int{kc}, Sep: []int{sep}, Trail: []int{sep % 3}, Split: []bool{kc%2 == 0}, CLPos: kc, CLCase: kc, JoinTight: sep%2 == 1}
+				st := wireStyle{KeyCase: []int{kc + kc/5*0x5a5a0b}, Sep: []int{sep}, Trail: []int{sep % 3}, Split: []bool{kc%2 == 0}, CLPos: kc, CLCase: kc, JoinTight: sep%2 == 1}
 				w := refEncode(a.it, st)
 				p, n, err := refParse(w)
 				if err != nil || n != len(w) {
